@@ -18,12 +18,18 @@ class _Unknown(Exception):
 class CrashModel:
     """Symbolic execution of Simulation.save_results on the abstract file state (out, bak)."""
 
-    def __init__(self, prog, rep):
+    def __init__(self, prog, rep, func='Simulation.save_results', config=None):
         self.prog = prog
         self.rep = rep
         self.m = prog.module(SIM)
-        self.f = self.m.func('Simulation.save_results')
+        self.f = self.m.func(func)
+        self.config = config or {}
         self.alias = {}  # local name -> 'out' | 'bak'
+        for st in stmts_of(self.f):
+            if isinstance(st, ast.Assign) and len(st.targets) == 1 and isinstance(
+                    st.targets[0], ast.Name) and isinstance(st.value, ast.Call) and \
+                    dotted(st.value.func) == 'Path' and st.targets[0].id == 'out_fn':
+                self.alias['out_fn'] = 'out'
         for st in stmts_of(self.f):
             if isinstance(st, ast.Assign) and len(st.targets) == 1 and isinstance(
                     st.targets[0], ast.Name):
@@ -85,9 +91,12 @@ class CrashModel:
             if w is not None:
                 # both file names are configured (safe_write on, output file requested)
                 return isinstance(node.ops[0], ast.IsNot)
+        txt = unparse(node)
+        if txt in self.config:
+            return self.config[txt]
         if self.mentions_file(node):
-            raise AnalysisError('save_results: condition `%s` on the result files is not modelled'
-                                % unparse(node))
+            raise AnalysisError('%s: condition `%s` on the result files is not modelled'
+                                % (self.f.name, unparse(node)))
         return None
 
     # ---- effects
@@ -109,10 +118,11 @@ class CrashModel:
                             raise AnalysisError('save_results: `%s` moves a result file to an '
                                                 'unmodelled place' % unparse(c))
                         out.append(('move', w, w2, c))
-                    elif fn.attr in ('exists', 'is_file', 'with_suffix', 'suffix', 'stat'):
+                    elif fn.attr in ('exists', 'is_file', 'with_suffix', 'suffix', 'stat',
+                                     'absolute', 'resolve'):
                         pass
                     elif fn.attr in ('open', 'write_text', 'write_bytes', 'touch'):
-                        out.append(('write', w, None, c))
+                        out.append(('junk', w, None, c))  # a text marker, not a results file
                     else:
                         raise AnalysisError('save_results: unmodelled file operation `%s`' %
                                             unparse(c))
@@ -130,7 +140,8 @@ class CrashModel:
                         raise AnalysisError('save_results: `%s` not modelled' % unparse(c))
                     out.append(('move', fileargs[0], fileargs[1], c))
                 elif d in ('os.path.exists', 'os.path.isfile', 'str', 'Path', 'repr',
-                           'self.logger.info', 'self.logger.debug', 'self.logger.warning'):
+                           'self.logger.info', 'self.logger.debug', 'self.logger.warning',
+                           'self.get_backup_filename', 'Skip', 'os.path.splitext'):
                     pass
                 else:
                     raise AnalysisError('save_results: call `%s` receives a result file name and '
@@ -188,6 +199,9 @@ class CrashModel:
                 st[w2] = st[w]
                 st[w] = A
                 crashes.append(((st['out'], st['bak']), desc))
+            elif kind == 'junk':
+                st[w] = J
+                crashes.append(((st['out'], st['bak']), desc + ' [marker written]'))
             elif kind == 'write':
                 st[w] = J
                 crashes.append(((st['out'], st['bak']), desc + ' [during write]'))
@@ -204,18 +218,51 @@ def check_crash(prog, rep):
     cm = CrashModel(prog, rep)
     m = cm.m
     rep.unit(m)
-    # restart: fix_output_filenames writes a marker into the backup if it does not exist
-    fo = m.func('Simulation.fix_output_filenames')
-    marker = False
-    for st in ast.walk(fo):
-        if isinstance(st, ast.If) and '_backup_filename.exists()' in unparse(st.test) and \
-                'not' in unparse(st.test):
-            marker = True
+    # restart: Simulation.__init__ runs fix_output_filenames; it is interpreted on the same
+    # abstract file state, for a resumed run (loaded_from_checkpoint) and for a fresh run that
+    # overwrites; a fresh run without overwrite picks new file names (old files untouched)
+    restart_cfgs = [
+        ('resume', {'skip_if_exists': False, 'self.loaded_from_checkpoint': True,
+                    'not self.loaded_from_checkpoint': False, 'overwrite_output': False,
+                    'not overwrite_output': True, 'output_filename is None': False}),
+        ('resume+overwrite', {'skip_if_exists': False, 'self.loaded_from_checkpoint': True,
+                              'not self.loaded_from_checkpoint': False, 'overwrite_output': True,
+                              'not overwrite_output': False, 'output_filename is None': False}),
+        ('fresh+overwrite', {'skip_if_exists': False, 'self.loaded_from_checkpoint': False,
+                             'not self.loaded_from_checkpoint': True, 'overwrite_output': True,
+                             'not overwrite_output': False, 'output_filename is None': False}),
+    ]
+    restarters = [(nm, CrashModel(prog, rep, 'Simulation.fix_output_filenames', cfg))
+                  for nm, cfg in restart_cfgs]
     reachable = set()
-    todo = [(A, J if marker else A)]
+    # very first start: no files; fix_output_filenames creates the marker
+    _, fin0 = restarters[2][1].run((A, A))
+    todo = list(fin0) or [(A, A)]
     transitions = 0
     viol = {}
+    rviol = {}
     first_bad = set()
+
+    def restart(cs):
+        """states after re-initialising a simulation on file state cs (+ violations inside)"""
+        nonlocal transitions
+        out = set()
+        for nm, rm in restarters:
+            if nm.startswith('resume') and CM not in cs:
+                continue  # nothing to resume from
+            crashes, finals = rm.run(cs)
+            for cs2, desc in crashes:
+                transitions += 1
+                rep.instance('CRASH-typestate', {'pre': list(cs), 'restart': nm, 'effect': desc,
+                                                 'crash_state': list(cs2)})
+                if CM in cs and CM not in cs2:
+                    key = 'restart:%s pre=(%s,%s) effect=%s' % (nm, cs[0], cs[1], desc)
+                    rviol.setdefault(key, (cs, cs2, desc, nm))
+                out.add(cs2)
+            out |= set(finals)
+        out.add((A, J))  # fresh run under new file names
+        return out
+
     while todo:
         s = todo.pop()
         if s in reachable:
@@ -232,15 +279,17 @@ def check_crash(prog, rep):
                 first_bad.add(s)
                 key = 'pre=(%s,%s) effect=%s' % (s[0], s[1], desc)
                 viol.setdefault(key, (s, cs, desc))
-            # restart after the crash (resume from a surviving complete file, or start again):
-            # the marker is (re)written only if the backup does not exist
-            ns = (cs[0], cs[1] if cs[1] != A or not marker else J)
-            todo.append(ns)
+            todo.extend(restart(cs))
         for fs in finals:
             transitions += 1
             todo.append(fs)
-            ns = (fs[0], fs[1] if fs[1] != A or not marker else J)
-            todo.append(ns)
+            todo.extend(restart(fs))
+    for key, (cs, cs2, desc, nm) in sorted(rviol.items()):
+        rep.violation('CRASH-typestate', m, 'Simulation.fix_output_filenames', key,
+                      're-initialising a simulation (%s) on file state (output=%s, backup=%s) — '
+                      'which holds a complete results file — `%s` leaves (output=%s, backup=%s): '
+                      'the only loadable results file is destroyed before anything new is saved' %
+                      (nm, cs[0], cs[1], desc, cs2[0], cs2[1]), restarters[0][1].f.lineno)
     for key, (s, cs, desc) in sorted(viol.items()):
         c_line = cm.f.lineno
         rep.violation('CRASH-typestate', m, 'Simulation.save_results', key,
@@ -527,6 +576,47 @@ def check_resume_keys(prog, rep):
                                       'get_resume_data along the MRO of %s writes it: resuming '
                                       'raises KeyError / restarts from wrong state' %
                                       (key, ci.name), n.lineno)
+    # accumulators written as data['K'] = self.A must be restored by `self.A = resume_data['K']`
+    # (an unconditional override when resume data is present -- not e.g. merely a default value
+    # of an option, which a saved option would shadow)
+    for ci in ct.cone(base):
+        g = ci.methods.get('get_resume_data')
+        if g is None:
+            continue
+        for st in stmts_of(g):
+            if not (isinstance(st, ast.Assign) and isinstance(st.targets[0], ast.Subscript) and
+                    isinstance(st.targets[0].slice, ast.Constant) and is_self_attr(st.value)):
+                continue
+            key = st.targets[0].slice.value
+            attr = st.value.attr
+            restored = False
+            for sub in ct.cone(ci):
+                pass
+            for c in ci.mro:
+                for f in c.methods.values():
+                    for s2 in stmts_of(f):
+                        if isinstance(s2, ast.Assign) and any(
+                                is_self_attr(t, attr) for t in s2.targets):
+                            v = s2.value
+                            if isinstance(v, ast.Subscript) and 'resume_data' in unparse(
+                                    v.value) and isinstance(v.slice, ast.Constant) and \
+                                    v.slice.value == key:
+                                restored = True
+                            if isinstance(v, ast.Call) and isinstance(v.func, ast.Attribute) and \
+                                    v.func.attr == 'get' and 'resume_data' in unparse(
+                                        v.func.value) and v.args and isinstance(
+                                            v.args[0], ast.Constant) and v.args[0].value == key:
+                                restored = True
+            q = '%s.get_resume_data' % ci.name
+            rep.instance('RESUME-restore', {'class': ci.name, 'key': key, 'attr': attr,
+                                            'restored': restored})
+            if not restored:
+                rep.violation('RESUME-restore', ci.module, q, 'not-restored:' + key,
+                              'resume data stores self.%s under %r but no method along the MRO of '
+                              '%s restores `self.%s = resume_data[%r]`: a resumed run continues '
+                              'with a re-initialised %s (e.g. an option default shadowed by the '
+                              'saved options) instead of the checkpointed value' %
+                              (attr, key, ci.name, attr, key, attr), st.lineno)
     # get_resume_data overrides call super() and return the dict
     for ci in ct.cone(base):
         g = ci.methods.get('get_resume_data')
